@@ -355,7 +355,9 @@ def check_c13(rep, tier, seed, wd, replay):
         conc.append(("c13_maps_%d" % i, gw.script_lines(o, calls, None)))
     conc_runs = 0
     for procs in ((4, 16) if tier == "quick" else (2, 4, 16)):
-        env = dict(os.environ, GOMAXPROCS=str(procs), VERIF_REPS="2" if tier == "quick" else "6", VERIF_GOROUTINES="16")
+        # with 16 processors each workload's writers also share ONE WriterOptions value (a caller that keeps its options around)
+        env = dict(os.environ, GOMAXPROCS=str(procs), VERIF_REPS="2" if tier == "quick" else "6", VERIF_GOROUTINES="16",
+                   VERIF_SHARE_OPTS="1" if procs == 16 else "0")
         raw, crashed = cm.run_sharded(os.path.join(cm.BUILD, "impl"), "writeconc", conc, wd, "conc%d" % procs, nshards=1, extra_env=env)
         for cmd, rc, err in crashed:
             rep.add_violation("executor-crash", "%s exited %s: %s" % (cmd, rc, err), [], failing_input=False)
@@ -384,7 +386,7 @@ def check_c13(rep, tier, seed, wd, replay):
         with open(spath, "w") as f:
             for cid, lines in rconc:
                 f.write("case %s\n%s\nend\n" % (cid, "\n".join(lines)))
-        env = dict(os.environ, GOMAXPROCS="8", VERIF_REPS="1" if tier == "quick" else "5", VERIF_GOROUTINES="16", VERIF_CONC_READ="1",
+        env = dict(os.environ, GOMAXPROCS="8", VERIF_REPS="1" if tier == "quick" else "5", VERIF_GOROUTINES="16", VERIF_CONC_READ="1", VERIF_SHARE_OPTS="1",
                    GORACE="exitcode=0 halt_on_error=0")
         p = subprocess.run([os.path.join(cm.BUILD, "impl_race"), "writeconc", spath], stdout=subprocess.PIPE, stderr=subprocess.PIPE, env=env, timeout=3000)
         errtxt = p.stderr.decode(errors="replace")
@@ -415,7 +417,7 @@ def check_c13(rep, tier, seed, wd, replay):
                                           ["# mode writeconc VERIF_CONC_READ=1", "case " + cid] + dict(rconc)[cid] + ["end"])
     stage["race"] = round(time.time() - t0, 1)
     cov = summarize(rep, len(cases) + sched_runs + conc_runs, len(distinct),
-                    "each workload written with 3 different insertion orders of every metadata map (byte-identical output required, and equal to the model's); a subset re-executed 3x sequentially plus 16 goroutines concurrently under GOMAXPROCS 1,2,4,16 (hash of bytes+segmentation must equal the single run); all workloads plus map-heavy ones written concurrently by 16 goroutines in different rotations (independent writers of different content overlapping) under GOMAXPROCS 2,4,16; the same with read-back through independent lexers/readers in a race-detector build (any report with a go/mcap frame is a violation)",
+                    "each workload written with 3 different insertion orders of every metadata map (byte-identical output required, and equal to the model's); a subset re-executed 3x sequentially plus 16 goroutines concurrently under GOMAXPROCS 1,2,4,16 (hash of bytes+segmentation must equal the single run); all workloads plus map-heavy ones written concurrently by 16 goroutines in different rotations (independent writers of different content overlapping) under GOMAXPROCS 2,4,16, once with a fresh WriterOptions value per writer and once with one value shared by all writers of a workload; the same with read-back through independent lexers/readers in a race-detector build (any report with a go/mcap frame is a violation)",
                     [cw.case_replay(c) for c in cases[:2]],
                     {"input_distribution": hist, "permutation_pairs": nperm, "schedule_runs": sched_runs, "concurrent_heterogeneous_runs": conc_runs, "race_detector_reports_in_library": race_reports, "stage_seconds": stage, "disagreements": nd})
     return cov, ["goroutine schedules are sampled by the Go runtime, not enumerated (partial for the schedule quantifier)"]
@@ -1355,6 +1357,10 @@ def check_c20(rep, tier, seed, wd, replay):
 import chk_hostile as ch  # noqa: E402
 
 
+def impl_path():
+    return os.path.join(cm.BUILD, "impl")
+
+
 @prop("C10")
 def check_c10(rep, tier, seed, wd, replay):
     import random
@@ -1393,6 +1399,48 @@ def check_c10(rep, tier, seed, wd, replay):
             for _ in range(3):
                 pl.append("parse %s %s" % (r.choice(list(ch.PARSE_KIND.values())), cm.hx(bytes(r.randrange(256) for _ in range(r.randint(0, 60))))))
             parsecases.append({"id": cid + "_parse", "lines": pl, "desc": desc})
+    # a chunk record nested inside a chunk of the SAME compression, the outer chunk damaged in the ways the validating branch
+    # rejects (wrong CRC, understated / overstated size): after the error or the invalid-chunk token the lexer must not start
+    # decoding the inner chunk with the decoder it is still reading from
+    import zlib
+    msg = struct.pack("<BQHIQQ", 5, 22 + 3, 1, 7, 1, 1) + b"abc"
+    ctx = files[0] if files else None
+    comps = ["", "zstd", "lz4"]
+    if ctx is not None:
+        inner_plain = msg + msg
+        q1 = [("ni%d" % k, ["compress %s %s" % (comp or "-", cm.hx(inner_plain))]) for k, comp in enumerate(comps)]
+        r1, _ = cm.run_sharded(impl_path(), "compress", q1, wd, "c10comp1", nshards=1)
+        outer_plains = {}
+        for k, comp in enumerate(comps):
+            line = next((l for l in r1.get("ni%d" % k, []) if l.startswith("compressed ")), None)
+            if not line:
+                continue
+            pay = cm.unhx(line.split(" ")[2]) if len(line.split(" ")) > 2 else b""
+            ib = struct.pack("<QQQI", 1, 1, len(inner_plain), zlib.crc32(inner_plain)) + struct.pack("<I", len(comp)) + comp.encode() + struct.pack("<Q", len(pay)) + pay
+            inner = bytes([6]) + struct.pack("<Q", len(ib)) + ib
+            outer_plains[comp] = [("first", inner + msg, 0), ("second", msg + inner + msg, len(msg))]
+        q2 = [("no_%s_%s" % (comp or "none", nm), ["compress %s %s" % (comp or "-", cm.hx(pl))]) for comp, lst in outer_plains.items() for nm, pl, _ in lst]
+        r2, _ = cm.run_sharded(impl_path(), "compress", q2, wd, "c10comp2", nshards=1)
+        # where the chunk goes: right after the header record of the context file
+        hdr_end = 8 + 9 + struct.unpack_from("<Q", ctx["file"], 9)[0]
+        for comp, lst in outer_plains.items():
+            for nm, plain, aligned in lst:
+                line = next((l for l in r2.get("no_%s_%s" % (comp or "none", nm), []) if l.startswith("compressed ")), None)
+                if not line:
+                    continue
+                payload = cm.unhx(line.split(" ")[2]) if len(line.split(" ")) > 2 else b""
+                good = zlib.crc32(plain)
+                variants = [(len(plain), 1), (len(plain), 0), (len(plain), good), (max(0, len(plain) - 5), good), (len(plain) + 9, 1), (len(plain) + 70000, 0),
+                            (0, 1), (0, 0xdeadbeef), (aligned, 1), (aligned, good), (1 << 31, good)]
+                for vi, (usize, crc) in enumerate(variants):
+                    body = struct.pack("<QQQI", 0, 9, usize, crc) + struct.pack("<I", len(comp)) + comp.encode() + struct.pack("<Q", len(payload)) + payload
+                    data = ctx["file"][:hdr_end] + bytes([6]) + struct.pack("<Q", len(body)) + body + ctx["file"][hdr_end:]
+                    for li, lo in enumerate(lo_variants[:3]):
+                        nmut += 1
+                        lexcases.append({"id": "nest_%s_%s_%d_%d_lex" % (comp or "none", nm, vi, li), "file": data, "lopts": dict(lo), "src": {"seek": (vi + li) % 2}, "base": ctx,
+                                         "desc": "%s chunk nested (%s) in a %s chunk usize=%d crc=%d" % (comp or "none", nm, comp or "none", usize, crc), "limited": "maxrecord" in lo})
+                    readcases.append({"id": "nest_%s_%s_%d_read" % (comp or "none", nm, vi), "file": data, "ropts": ["index:0"], "ops": [["messages"]], "base": ctx,
+                                      "desc": "nested chunk usize=%d crc=%d" % (usize, crc)})
     # hand-made inputs for the sites the lexer/reader guard (kept as a corpus; run first)
     corpus_dir = os.path.join(cm.VERIF, "corpus", "C10")
     if os.path.isdir(corpus_dir):
@@ -2578,6 +2626,32 @@ def check_c17(rep, tier, seed, wd, replay):
 
 
 # ------------------------------------------------------------------ C16: Go <-> Python
+def lenient_index_offsets(data):
+    """offsets listed by the attachment and metadata index records of the summary section, found through the footer alone
+    (no validation: this is what a reader following the indexes would use)"""
+    import struct
+    aoffs, moffs = [], []
+    try:
+        if len(data) < 8 + 29 + 8:
+            return aoffs, moffs
+        ss = struct.unpack_from("<Q", data, len(data) - 8 - 20)[0]
+        p = ss
+        while ss and p + 9 <= len(data) - 8:
+            op = data[p]
+            n = struct.unpack_from("<Q", data, p + 1)[0]
+            body = data[p + 9:p + 9 + n]
+            if op == 0x0A and n >= 8:
+                aoffs.append(struct.unpack_from("<Q", body, 0)[0])
+            elif op == 0x0D and n >= 8:
+                moffs.append(struct.unpack_from("<Q", body, 0)[0])
+            elif op == 0x02:
+                break
+            p += 9 + n
+    except struct.error:
+        pass
+    return aoffs, moffs
+
+
 PY_HARNESS = os.path.join(cm.VERIF, "tools", "py_harness.py")
 
 
@@ -2782,6 +2856,11 @@ def check_c16(rep, tier, seed, wd, replay):
         rcases.append({"id": f["id"] + "_scan", "file": f["file"], "ropts": ["index:0"], "ops": [["messages"]], "base": f})
         rcases.append({"id": f["id"] + "_idx", "file": f["file"], "ropts": [], "ops": [["info"], ["messages"]], "base": f})
         rcases.append({"id": f["id"] + "_log", "file": f["file"], "ropts": ["order:log"], "ops": [["messages"]], "base": f})
+        # random access through the index entries Python wrote (offsets taken from the summary as the independent decoder sees it)
+        aoffs, moffs = lenient_index_offsets(f["file"])
+        ops = [["getatt", str(x)] for x in aoffs] + [["getmd", str(x)] for x in moffs]
+        if ops:
+            rcases.append({"id": f["id"] + "_ra", "file": f["file"], "ropts": [], "ops": ops, "base": f, "natt": len(aoffs), "nmd": len(moffs)})
     go_l, model_l, nd1 = lex_corr(rep, lcases, wd, "c16l")
     go_r, model_r, nd2 = read_corr(rep, rcases, wd, "c16r")
 
@@ -2833,6 +2912,24 @@ def check_c16(rep, tier, seed, wd, replay):
         g = go_r.get(c["id"])
         probs = []
         w = c["base"]["w"]
+        if g and g["ops"] and c["id"].endswith("_ra"):
+            # every attachment / metadata index entry of a Python-written file leads the Go reader to the record Python was given
+            wa = [c2 for c2 in w["calls"] if c2[0] == "A"]
+            wm = [c2 for c2 in w["calls"] if c2[0] == "D"]
+            for k2, o2 in enumerate(g["ops"]):
+                h2 = o2["head"] or ""
+                if k2 < c["natt"]:
+                    a2 = wa[k2] if k2 < len(wa) else None
+                    want2 = None if a2 is None else "getatt ok %d %d %s %s %d %s ok" % (a2[1], a2[2], cm.hx(a2[3].encode()), cm.hx(a2[4].encode()), len(bytes.fromhex(a2[5])), a2[5] or "-")
+                    if want2 is None or not h2.startswith(want2) or h2.split(" ")[-1] != h2.split(" ")[-2]:
+                        probs.append("attachment index entry %d of a Python-written file: Go GetAttachmentReader gives %s, Python was given %s" % (k2, h2[:90], (want2 or "nothing")[:90]))
+                else:
+                    m2 = wm[k2 - c["natt"]] if k2 - c["natt"] < len(wm) else None
+                    want2 = None if m2 is None else "getmd ok %s %s" % (cm.hx(m2[1].encode()), ",".join("%s:%s" % (k3.encode().hex(), v3.encode().hex()) for k3, v3 in sorted(dict(m2[2]).items())) or "-")
+                    if want2 is None or h2 != want2:
+                        probs.append("metadata index entry %d of a Python-written file: Go GetMetadata gives %s, Python was given %s" % (k2 - c["natt"], h2[:90], (want2 or "nothing")[:90]))
+            report_case(rep, c, probs[:2], cr.read_replay)
+            continue
         if g and g["ops"] and c["id"].endswith("_idx") and w["opts"]["use_statistics"]:
             # Go's Info of a Python-written file: the statistics Python wrote are the true aggregates of what it was given
             info = g["ops"][0]
